@@ -249,6 +249,14 @@ func (e *Enc) evalBin(sc *Scope, n *CBin, hint types.Type) Val {
 		}
 	}
 	if len(a.L) == 1 && len(b.L) == 1 && !a.L[0].S.Eq(b.L[0].S) && op != token.SHL && op != token.SHR {
+		// an integer literal against a bit pattern (bits(f) in int mode): re-type the literal
+		if v, ok := isLit(b.L[0]); ok && b.L[0].S.K == SInt && a.L[0].S.K == SBV {
+			b = Val{Typ: a.Typ, L: []T{IntLit(a.L[0].S, v)}}
+		} else if v, ok := isLit(a.L[0]); ok && a.L[0].S.K == SInt && b.L[0].S.K == SBV {
+			a = Val{Typ: b.Typ, L: []T{IntLit(b.L[0].S, v)}}
+		}
+	}
+	if len(a.L) == 1 && len(b.L) == 1 && !a.L[0].S.Eq(b.L[0].S) && op != token.SHL && op != token.SHR {
 		panic(unsupported(fmt.Sprintf("contract operands of different sorts in %s: %s vs %s (%s / %s)", n.String(), a.L[0].S, b.L[0].S, a.Typ, b.Typ)))
 	}
 	e.specEval++
@@ -277,7 +285,11 @@ func (e *Enc) evalQuant(sc *Scope, q *CQuant) Val {
 		decls = append(decls, fmt.Sprintf("(%s %s)", name, sh[0].S))
 		tv := T{sh[0].S, name}
 		inner = inner.with(v.Name, Val{Typ: t, L: []T{tv}})
-		ranges = append(ranges, rangeInv(tv, t))
+		// Int-sorted bound variables range over all mathematical integers: bodies guard them with
+		// in-range program values (0 <= i < len(s)), and ghost integers carry no machine range
+		if b, ok := t.Underlying().(*types.Basic); !ok || b.Kind() != types.Int {
+			ranges = append(ranges, rangeInv(tv, t))
+		}
 	}
 	e.quantDepth++
 	body := e.evalBool(inner, q.Body)
@@ -648,11 +660,36 @@ func (e *Enc) tryResolve(sc *Scope, name string) (v Val, ok bool) {
 	return e.resolveName(sc, name)
 }
 
+func (e *Enc) ghostFieldType(sc *Scope, gf *GhostField) types.Type {
+	dsc := *sc
+	if p := e.prog.typesPkg(gf.PkgPath); p != nil {
+		dsc.pkg = p
+	}
+	gt := e.resolveTypeName(&dsc, gf.Type)
+	if gt == nil || len(e.shape(gt)) != 1 {
+		panic(unsupported("ghost field type: " + gf.Type))
+	}
+	return gt
+}
+
+// ghostFieldHeap returns the heap component holding ghost field gf of values of type t.
+func (e *Enc) ghostFieldHeap(sc *Scope, st *State, t types.Type, gf *GhostField) (T, string, Sort) {
+	gt := e.ghostFieldType(sc, gf)
+	s := e.shape(gt)[0].S
+	key := "X|" + typeKey(t) + "|" + gf.Name
+	return e.heapGet(st, key, ArrS(IntS, s)), key, s
+}
+
 func (e *Enc) selectField(sc *Scope, base Val, name string) Val {
 	if base.Typ == nil {
 		panic(unsupported("selector on untyped value ." + name))
 	}
-	// ghost/builtin pseudo-fields on slices
+	// ghost field of a named (interface) type: specification-only mutable state keyed by the value
+	if gf := e.prog.ghostField(base.Typ, name); gf != nil {
+		h, _, _ := e.ghostFieldHeap(sc, sc.st, base.Typ, gf)
+		gt := e.ghostFieldType(sc, gf)
+		return Val{Typ: gt, L: []T{Select(h, base.L[0])}}
+	}
 	obj, index, _ := types.LookupFieldOrMethod(base.Typ, true, sc.pkg, name)
 	if obj == nil {
 		// try with the package of the named type (unexported fields)
@@ -701,7 +738,44 @@ func namedOf(t types.Type) *types.Named {
 	}
 }
 
+// applyGhost applies an uninterpreted ghost function; its parameter/result type names are
+// resolved in the package that declares it.
+func (e *Enc) applyGhost(sc *Scope, g *GhostFunc, pkgPath string, n *CCall) Val {
+	if len(n.Args) != len(g.Params) {
+		panic(unsupported("ghost function arity: " + n.String()))
+	}
+	dsc := *sc
+	if p := e.prog.typesPkg(pkgPath); p != nil {
+		dsc.pkg = p
+	}
+	rt := e.resolveTypeName(&dsc, g.Result)
+	if rt == nil || len(e.shape(rt)) != 1 {
+		panic(unsupported("ghost function result type: " + g.Result))
+	}
+	var sorts, terms []string
+	for i, a := range n.Args {
+		pt := e.resolveTypeName(&dsc, g.Params[i])
+		if pt == nil || len(e.shape(pt)) != 1 {
+			panic(unsupported("ghost function parameter type: " + g.Params[i]))
+		}
+		v := e.eval(sc, a, pt)
+		sorts = append(sorts, e.shape(pt)[0].S.String())
+		terms = append(terms, v.L[0].E)
+	}
+	rs := e.shape(rt)[0].S
+	fname := "ghost_" + sanitize(g.Name)
+	e.declUF(fname, "("+strings.Join(sorts, " ")+") "+rs.String())
+	return Val{Typ: rt, L: []T{{rs, app(fname, terms...)}}}
+}
+
 func (e *Enc) evalCall(sc *Scope, n *CCall, hint types.Type) Val {
+	if sel, ok := n.Fun.(*CSel); ok {
+		if _, isId := sel.X.(*CIdent); isId {
+			if g, gp := e.prog.ghostFuncAny(sel.Name); g != nil {
+				return e.applyGhost(sc, g, gp, n)
+			}
+		}
+	}
 	if id, ok := n.Fun.(*CIdent); ok {
 		switch id.Name {
 		case "old":
@@ -724,6 +798,16 @@ func (e *Enc) evalCall(sc *Scope, n *CCall, hint types.Type) Val {
 				o.over = nil
 			}
 			return e.eval(&o, n.Args[0], hint)
+		case "sameArray":
+			// sameArray(x, y): the two slices share their backing array
+			a := e.eval(sc, n.Args[0], nil)
+			b := e.eval(sc, n.Args[1], nil)
+			_, oka := a.Typ.Underlying().(*types.Slice)
+			_, okb := b.Typ.Underlying().(*types.Slice)
+			if !oka || !okb {
+				panic(unsupported("sameArray needs two slices"))
+			}
+			return Val{Typ: types.Typ[types.Bool], L: []T{And(Eq(a.L[0], b.L[0]), Not(Eq(a.L[0], IntLit64(IntS, 0))))}}
 		case "called":
 			// called(Name): a function or method with this name was called on the current path
 			// since the region (loop iteration / function) was entered
@@ -795,30 +879,8 @@ func (e *Enc) evalCall(sc *Scope, n *CCall, hint types.Type) Val {
 			return Val{Typ: types.Typ[types.Bool], L: []T{And(Not(Eq(a.L[0], IntLit64(IntS, 0))), Eq(T{IntS, app("iface_type", a.L[0].E)}, IntLit64(IntS, int64(e.prog.typeID(t)))))}}
 		}
 		// ghost function declared in a contract file: `//@ ghost func name(T1, T2) R` (uninterpreted)
-		if sc.pkg != nil {
-			if g := e.prog.ghostFunc(sc.pkg.Path(), id.Name); g != nil {
-				if len(n.Args) != len(g.Params) {
-					panic(unsupported("ghost function arity: " + n.String()))
-				}
-				rt := e.resolveTypeName(sc, g.Result)
-				if rt == nil || len(e.shape(rt)) != 1 {
-					panic(unsupported("ghost function result type: " + g.Result))
-				}
-				var sorts, terms []string
-				for i, a := range n.Args {
-					pt := e.resolveTypeName(sc, g.Params[i])
-					if pt == nil || len(e.shape(pt)) != 1 {
-						panic(unsupported("ghost function parameter type: " + g.Params[i]))
-					}
-					v := e.eval(sc, a, pt)
-					sorts = append(sorts, e.shape(pt)[0].S.String())
-					terms = append(terms, v.L[0].E)
-				}
-				rs := e.shape(rt)[0].S
-				fname := "ghost_" + sanitize(id.Name)
-				e.declUF(fname, "("+strings.Join(sorts, " ")+") "+rs.String())
-				return Val{Typ: rt, L: []T{{rs, app(fname, terms...)}}}
-			}
+		if g, gp := e.prog.ghostFuncAny(id.Name); g != nil {
+			return e.applyGhost(sc, g, gp, n)
 		}
 		// conversion T(x)?
 		if _, bound := sc.vars[id.Name]; !bound && len(n.Args) == 1 {
@@ -876,7 +938,7 @@ func (e *Enc) pureCall(sc *Scope, fn *ssa.Function, args []Val) Val {
 		}
 		return r
 	}
-	if ct := e.prog.contractFor(fn); ct != nil && ct.Pure {
+	if ct := e.prog.contractFor(fn); ct != nil && ct.Pure && ct.Opts["uf"] == "1" {
 		who := fn.RelString(nil)
 		rs := e.pureUF(who, args, fn.Signature)
 		if len(rs) == 1 {
